@@ -47,6 +47,7 @@ package frame
 //@   ensures one_frame: nemitted() == 2 && evis(0, "utils.MustToReader") && evis(1, "InboundContext.HandleRead") && evrecv(1) == ctx && is(evarg(1, 0), []byte)
 //@   ensures bounded: len(as(evarg(1, 0), []byte)) <= old(v.maxReadLength) && at(1, rpos(message)) == old(rpos(message)) + len(as(evarg(1, 0), []byte))
 //@   ensures content: at(1, seqeq(content(as(evarg(1, 0), []byte)), subseq(rdata(message), old(rpos(message)), len(as(evarg(1, 0), []byte)))))
+//@   ensures end_of_stream_is_never_a_message: old(rpos(message)) != rend(message) && len(as(evarg(1, 0), []byte)) > 0
 //@   ensures_panic nothing: count("InboundContext.HandleRead") == 0 || nemitted() == 2
 //@ func (*variableLengthCodec).HandleWrite
 //@   requires ctx != nil
